@@ -62,7 +62,11 @@ static void mgcd_case(void) {
       lp_polynomial_t* G = lp_polynomial_new(hp_ctx[0]);
       sb_begin("gcd", "gcd"); sb_sp(); hp_ring_token(0); sb_sp(); sb_long(flags); sb_sp(); sb_poly(P); sb_sp(); sb_poly(Q); sb_sp(); sb_poly(g0); sb_arrow();
       lp_verif_flags = flags == 0 ? 0 : flags == 1 ? 1 : 3;
-      lp_polynomial_gcd(G, P, Q);
+      { unsigned al = rnd(6);      /* output aliased with an input (on a copy), or a pre-used object */
+        if (al == 0) { lp_polynomial_t* Pc = lp_polynomial_new_copy(P); lp_polynomial_gcd(Pc, Pc, Q); lp_polynomial_assign(G, Pc); lp_polynomial_delete(Pc); }
+        else if (al == 1) { lp_polynomial_t* Qc = lp_polynomial_new_copy(Q); lp_polynomial_gcd(Qc, P, Qc); lp_polynomial_assign(G, Qc); lp_polynomial_delete(Qc); }
+        else if (al == 2) { lp_polynomial_t* O = hp_dest(0, 2); lp_polynomial_gcd(O, P, Q); lp_polynomial_assign(G, O); lp_polynomial_delete(O); }
+        else lp_polynomial_gcd(G, P, Q); }
       lp_verif_flags = 0;
       sb_sp(); sb_poly(G); sb_emit();
       lp_polynomial_delete(G);
@@ -71,13 +75,19 @@ static void mgcd_case(void) {
     if (lp_polynomial_is_zero(P) || lp_polynomial_is_zero(Q)) goto done;
     lp_polynomial_t* L = lp_polynomial_new(hp_ctx[0]);
     sb_begin("gcd", "lcm"); sb_sp(); hp_ring_token(0); sb_sp(); sb_long(0); sb_sp(); sb_poly(P); sb_sp(); sb_poly(Q); sb_arrow();
-    lp_polynomial_lcm(L, P, Q); sb_sp(); sb_poly(L); sb_emit();
+    if (chance(25)) { lp_polynomial_t* Pc = lp_polynomial_new_copy(P); lp_polynomial_lcm(Pc, Pc, Q); lp_polynomial_assign(L, Pc); lp_polynomial_delete(Pc); }
+    else if (chance(25)) { lp_polynomial_t* Qc = lp_polynomial_new_copy(Q); lp_polynomial_lcm(Qc, P, Qc); lp_polynomial_assign(L, Qc); lp_polynomial_delete(Qc); }
+    else lp_polynomial_lcm(L, P, Q);
+    sb_sp(); sb_poly(L); sb_emit();
     lp_polynomial_delete(L);
   } else {
     if (lp_polynomial_is_zero(P)) goto done;
     lp_polynomial_t* C = lp_polynomial_new(hp_ctx[0]); lp_polynomial_t* PP = lp_polynomial_new(hp_ctx[0]);
     sb_begin("gcd", "ppcont"); sb_sp(); hp_ring_token(0); sb_sp(); sb_long(topvar(P)); sb_sp(); sb_poly(P); sb_arrow();
-    lp_polynomial_pp_cont(PP, C, P); sb_sp(); sb_poly(PP); sb_sp(); sb_poly(C); sb_emit();
+    if (chance(25)) { lp_polynomial_t* Pc = lp_polynomial_new_copy(P); lp_polynomial_pp_cont(Pc, C, Pc); lp_polynomial_assign(PP, Pc); lp_polynomial_delete(Pc); }
+    else if (chance(25)) { lp_polynomial_t* Pc = lp_polynomial_new_copy(P); lp_polynomial_pp_cont(PP, Pc, Pc); lp_polynomial_assign(C, Pc); lp_polynomial_delete(Pc); }
+    else lp_polynomial_pp_cont(PP, C, P);
+    sb_sp(); sb_poly(PP); sb_sp(); sb_poly(C); sb_emit();
     sb_begin("gcd", "ppcont"); sb_sp(); hp_ring_token(0); sb_sp(); sb_long(topvar(P)); sb_sp(); sb_poly(P); sb_arrow();
     lp_polynomial_pp(PP, P); lp_polynomial_cont(C, P); sb_sp(); sb_poly(PP); sb_sp(); sb_poly(C); sb_emit();
     lp_polynomial_delete(C); lp_polynomial_delete(PP);
